@@ -78,6 +78,7 @@ static json describeSimple(XSSimpleTypeDefinition* t, int depth) {
     json fs = json::array();
     if (XSFacetList* l = t->getFacets())
         for (XMLSize_t i = 0; i < l->size(); i++) fs.push_back({(int)l->elementAt(i)->getFacetKind(), J(l->elementAt(i)->getLexicalFacetValue()), l->elementAt(i)->isFixed()});
+    std::sort(fs.begin(), fs.end(), [](const json& x, const json& y) { return x.dump() < y.dump(); });   // the list follows hash-table order
     j["facets"] = fs;
     json ms = json::array();
     if (XSSimpleTypeDefinitionList* l = t->getMemberTypes())
@@ -508,7 +509,8 @@ static int modeG(const std::string& manifestPath, const std::string& outdir, con
             std::string tp = outdir + "/" + name + ".ndjson";
             tw.f = fopen(tp.c_str(), "w");
             if (!tw.f) { perror(tp.c_str()); return 2; }
-            tw.raw({{"e", "Reset"}, {"d", -1}, {"k", 0}, {"n", 8192}, {"v", (long long)(out1.curPos() / 8192)}, {"p", 0}, {"c", name}, {"pos", 0}, {"sz", 0}, {"src", 0}});
+            bool same12 = exc.empty() && out1.curPos() == out2.curPos() && !memcmp(out1.getRawBuffer(), out2.getRawBuffer(), (size_t)out1.curPos());
+            tw.raw({{"e", "Reset"}, {"d", -1}, {"k", same12 ? 1 : 0}, {"n", 8192}, {"v", (long long)(out1.curPos() / 8192)}, {"p", 0}, {"c", name}, {"pos", 0}, {"sz", 0}, {"src", 0}});
             long a = tw.phase(s1, 0);
             tw.raw({{"e", "Phase"}, {"d", 1}, {"k", 0}, {"n", 0}, {"v", 0}, {"p", 0}, {"c", ""}, {"pos", 0}, {"sz", 0}, {"src", 0}});
             long b = tw.phase(l1, 1);
